@@ -6,6 +6,7 @@
 From Coq Require Import String.
 From Coq Require Import List NArith ZArith Bool.
 From NV Require Import Lib.Val Lib.Res Gen.Prep Prep.Model Prep.ProofsNum Prep.Proofs Prep.ProofsBoard.
+From NV Require Prep.Detect.
 Import ListNotations.
 Open Scope N_scope.
 
@@ -165,3 +166,36 @@ Example C17_nonvacuous :
 Proof.
   repeat split; try reflexivity. apply split_spec. reflexivity.
 Qed.
+
+(* which partitions are prepared when none is named ("all FAT types and partition-table styles"): detect_partitions
+   walks what sh.fat_types reports per partition, in table order (loop body, error tests and the three kinds are facts
+   regenerated from prep.py / sh.py).  The boot partition is the one given, else the FIRST partition that holds a FAT
+   file system; the root partition the one given, else the FIRST partition that is neither FAT nor FAT-typed; the early
+   break changes nothing; a FAT-typed partition without a file system is never chosen *)
+Theorem C17_detect_source_facts :
+  detect_loop_standard = true /\ detect_errors_standard = true /\ fat_types_kinds_standard = true.
+Proof. repeat split; reflexivity. Qed.
+Print Assumptions C17_detect_source_facts.
+
+Theorem C17_detect_spec : forall b t l,
+  Prep.Detect.detect b t l =
+  match Prep.Detect.orelse b (Prep.Detect.first_of Prep.Detect.is_fat l),
+        Prep.Detect.orelse t (Prep.Detect.first_of Prep.Detect.is_not l) with
+  | None, _ => Prep.Detect.NoBoot
+  | Some _, None => Prep.Detect.NoRoot
+  | Some x, Some y => Prep.Detect.Detected x y
+  end.
+Proof. exact Prep.Detect.detect_spec. Qed.
+Print Assumptions C17_detect_spec.
+
+Theorem C17_detect_break_is_harmless : forall l b t,
+  Prep.Detect.detect_loop b t l =
+  fold_left (fun s x => Prep.Detect.detect_step (fst s) (snd s) x) l (b, t).
+Proof. exact Prep.Detect.detect_loop_fold. Qed.
+Print Assumptions C17_detect_break_is_harmless.
+
+Theorem C17_maybefat_never_chosen : forall l b r,
+  Prep.Detect.detect None None l = Prep.Detect.Detected b r ->
+  In (b, Prep.Detect.KFat) l /\ In (r, Prep.Detect.KNot) l.
+Proof. exact Prep.Detect.maybefat_never_chosen. Qed.
+Print Assumptions C17_maybefat_never_chosen.
